@@ -170,7 +170,7 @@ theorem attach_flatten (regs : Regs) : ∀ (c : CST) (nt : Bool) (o : Name) (p :
     · simp only [CST.flatten, attach_flatten regs r nt o p, List.append_assoc]
     · simp only [CST.flatten, List.append_assoc]
   | .atom _, _, _, _ | .paren _, _, _, _ | .unary _ _, _, _, _ | .postfix _ _, _, _, _ | .call _ _, _, _, _
-  | .list _, _, _, _ | .map _, _, _, _ | .tern _ _ _, _, _, _ => by simp [attach, CST.flatten]
+  | .list _ _, _, _, _ | .map _ _, _, _, _ | .tern _ _ _, _, _, _ => by simp [attach, CST.flatten]
 
 theorem attach_root (regs : Regs) (c : CST) (nt : Bool) (o : Name) (p : CST) :
     (attach regs c nt o p).root? = some o ∨ ((attach regs c nt o p).root? = c.root? ∧ ∃ o', c.root? = some o' ∧
@@ -219,7 +219,7 @@ theorem attach_canon (regs : Regs) (tb : TableOK regs) : ∀ (c : CST) (nt : Boo
       · intro o'' ho''; rw [hps.2.2.2] at ho''; cases ho''
   | .atom a, nt, o, p, hc, _, hinf, hp, hpp | .paren a, nt, o, p, hc, _, hinf, hp, hpp | .unary _ a, nt, o, p, hc, _, hinf, hp, hpp
   | .postfix a _, nt, o, p, hc, _, hinf, hp, hpp | .call _ a, nt, o, p, hc, _, hinf, hp, hpp
-  | .list a, nt, o, p, hc, _, hinf, hp, hpp | .map a, nt, o, p, hc, _, hinf, hp, hpp => by
+  | .list a _, nt, o, p, hc, _, hinf, hp, hpp | .map a _, nt, o, p, hc, _, hinf, hp, hpp => by
     have hps := primary_shape hpp
     exact ⟨hinf, hc, hp, rfl, hps.2.2.1, fun o' h => by simp [root?] at h, fun o' h => by rw [hps.2.2.2] at h; cases h⟩
   | .tern _ _ _, _, _, _, _, ht, _, _, _ => by simp [isTern] at ht
